@@ -314,8 +314,11 @@ func c05R2(c *Ctx, r *Report) {
 	}
 }
 
-func c05R3(c *Ctx, r *Report) {
-	const rule = "C05-R3"
+func c05R3(c *Ctx, r *Report) { stopCompletionRule(c, r, "C05-R3") }
+
+// stopCompletionRule is shared by C05-R3 and C01-R7: a module counts as
+// "completely stopped" only when its stop routine has ended and no work runs.
+func stopCompletionRule(c *Ctx, r *Report, rule string) {
 	r.SetFloor(rule, 2)
 	fn := c.Func("modules.(*Module).checkIfStopComplete")
 	if fn == nil {
